@@ -771,6 +771,7 @@ int main(int argc, char **argv)
       size_t k = (rng >> 33) % worklist.size();
       std::swap(worklist[k], worklist.back());
     }
+    if (std::chrono::duration<double>(std::chrono::steady_clock::now() - t0).count() > OPT.timeout_s) { timed_out = true; break; }
     State s = std::move(worklist.back()); worklist.pop_back();
     while (step(s))
     {
